@@ -6,12 +6,16 @@ def run(ctx):
                               "c07_refusal_any_diagnostic", "c07_refusal_final", "c07_account_state_refused", "c07_diag_sensitive_refuted", "c07_diag_sensitive_masked_by_second_pattern",
                               "c07_first_pattern_decides", "c07_later_pattern_user_refused",
                               "c07_outage_login_pure", "c07_rows_confirmed", "c07_backend",
-                              "c07_old_expired_record_refuted", "c07_old_evict_cache_refuted",
+                              "c07_cache_only_while_primary_silent", "c07_cache_silent_while_primary_answers", "c07_primary_row_decides", "c07_evicted_in_primary_refused",
+                              "c07_sticky_fallback_refuted", "c07_sticky_fallback_refresh_refuted",
+                              "c07_old_text_test_refuted", "c07_other_code_no_verdict", "c07_old_expired_record_refuted", "c07_old_evict_cache_refuted",
                               "c07_evict_primary_outage_refuted"])],
         harness=("TestVerif_C07", ["kmd/common.go", "kmd/creds.go", "kmd/faultdb.go", "kmd/vdevice.go", "kmd/storeenv.go", "kmd/c15.go", "kmd/c07.go"]),
         cases=("CasesC07.v", [("c07_mismatches", "login histories against the in-process LDAPS directory and the SQLite stores = model run (verdict of every login, both stores after every op)"),
                               ("c07_backend_mismatches", "htpassword and command backends on mixed-case user names = backend verdict on the normalised name")],
                "CasesC07.idx"),
+        model_oracles=[("c07_renewed_violating", "C07:model-oracle:outage-login-renewed-record", "a login during which no directory server answered changed the user's stored record (record / expiry differ between the snapshots before and after): the conclusion of c07_outage_login_pure fails on this observed history", "CasesC07.idx"),
+                       ("c07_stale_violating", "C07:model-oracle:cache-decided-while-primary-answers", "no directory server answered, the primary store answers, and the login was accepted although the primary's current row is not a genuine current hash of that password for that user: the conclusion of c07_primary_row_decides fails on this observed history", "CasesC07.idx")],
         trusted=["symbolic signatures: a stored record verifies iff keymaster's key produced it (go-jose RS256 verification, exercised with attacker-key, edited-payload and alg-none records)",
                  "Argon2 hash comparison = equality of the hashed password (authutil.Argon2CompareHashAndPassword, exercised with real hashes)",
                  "the directory's answers and the LDAP wire protocol are environment: in-process LDAPS server (vjeantet/ldapserver), 'down' = connections dropped before the TLS handshake, 'erroring' = result codes Busy/Unavailable/OperationsError/Other/UnwillingToPerform/InsufficientAccessRights/InappropriateAuthentication with assorted diagnostics; refusals = result code 49 with no diagnostic, a plain sentence, or Active Directory sub statuses 52e/525/530/531/532/533/701/773/775/57",
